@@ -37,15 +37,20 @@ __CPROVER_requires(__CPROVER_is_fresh(f, sizeof(*f)) && f->open && whence == SEE
 __CPROVER_assigns(f->pos, f->eof)
 __CPROVER_ensures(__CPROVER_return_value == 0 && f->pos == (wv_u64)off && !f->eof);
 
-/* fwrite(p, 1, n, f): writes n bytes at the position, extends the file, and updates the ghost write log */
+/* fwrite(p, 1, n, f): writes n bytes at the position, extends the file, and updates the ghost write log; the byte that lands on
+   the observed offset wv_wP is recorded */
+#define WV_WCOVERS(f, n) (__CPROVER_old((f)->pos) <= wv_wP && wv_wP < __CPROVER_old((f)->pos) + (n))
 size_t wv_fwrite(const void *p, size_t sz, size_t n, wv_FILE *f)
-__CPROVER_requires(sz == 1 && __CPROVER_is_fresh(f, sizeof(*f)) && f->open && f->len < (1ull << 62) && f->pos < (1ull << 62) && n < (1ull << 40) && __CPROVER_is_fresh(p, n))
-__CPROVER_assigns(f->pos, f->len, f->nwrites, f->nbytes, f->min_woff, f->last_woff, f->last_wlen)
+__CPROVER_requires(sz == 1 && __CPROVER_is_fresh(f, sizeof(*f)) && f->open && f->len < (1ull << 60) && f->pos < (1ull << 60) && n < (1ull << 40) && __CPROVER_is_fresh(p, n))
+__CPROVER_assigns(*f, wv_w)
+__CPROVER_ensures(f->open && f->id == __CPROVER_old(f->id) && f->eof == __CPROVER_old(f->eof) && f->tag_dirty == __CPROVER_old(f->tag_dirty))
 __CPROVER_ensures(__CPROVER_return_value == n && f->pos == __CPROVER_old(f->pos) + n)
 __CPROVER_ensures(f->len == (__CPROVER_old(f->pos) + n > __CPROVER_old(f->len) ? __CPROVER_old(f->pos) + n : __CPROVER_old(f->len)))
 __CPROVER_ensures(f->nwrites == __CPROVER_old(f->nwrites) + 1 && f->nbytes == __CPROVER_old(f->nbytes) + n)
 __CPROVER_ensures(f->last_woff == __CPROVER_old(f->pos) && f->last_wlen == n)
-__CPROVER_ensures(f->min_woff == (n > 0 && __CPROVER_old(f->pos) < __CPROVER_old(f->min_woff) ? __CPROVER_old(f->pos) : __CPROVER_old(f->min_woff)));
+__CPROVER_ensures(f->min_woff == (n > 0 && __CPROVER_old(f->pos) < __CPROVER_old(f->min_woff) ? __CPROVER_old(f->pos) : __CPROVER_old(f->min_woff)))
+__CPROVER_ensures(WV_WCOVERS(f, n) ? (wv_wbyte == ((const unsigned char *)p)[wv_wP - __CPROVER_old(f->pos)] && wv_wseen && wv_wcount == __CPROVER_old(wv_wcount) + 1)
+                                   : (wv_wbyte == __CPROVER_old(wv_wbyte) && wv_wseen == __CPROVER_old(wv_wseen) && wv_wcount == __CPROVER_old(wv_wcount)));
 
 int wv_fclose(wv_FILE *f)
 __CPROVER_requires(__CPROVER_is_fresh(f, sizeof(*f)) && f->open)
